@@ -329,7 +329,7 @@ def rule_R4(ctx, f):
             from . import hash_common as hc
             qc = [c for c, d in zip(ws, ds) if d[0] is None and d[1] is not None][0]
             eq = elem_of(peel(q[0][3][2][0]))
-            ok = bool(eq) and not [a for a in eq[1] if a not in ("into_iter", "iter")] and hc.every_element(b, qc) is True
+            ok = bool(eq) and is_call(peel(eq[0], transparent=tc.DEREFS), ["get_quantile", "Summary::quantile"]) and not [a for a in eq[1] if a not in ("into_iter", "iter")] and hc.every_element(b, qc) is True
         ctx.ob(rid, "SUMMARY|layout", ok, "a summary is quantile lines (label QUANTILE = quantile.to_string(), value), then _sum, then _count as f64", site=b.span_of_block(arms["SUMMARY"]))
 
 
